@@ -2,8 +2,9 @@
 From Coq Require Import List ZArith NArith Bool.
 Import ListNotations.
 
-Definition byte := N.
-Definition str := list byte.
+(* notations, not definitions: [rewrite] then never stumbles over [byte] vs [N] *)
+Notation byte := N (only parsing).
+Notation str := (list N) (only parsing).
 
 Inductive errkind := EInvalidExt | ENothingToWrite | EParse | EIO | ETooLong | EUnknownRef | EOther.
 Inductive res (A : Type) := Ok (a : A) | Err (k : errkind) | Panic (site : N).
